@@ -459,9 +459,24 @@ class Facts:
         if not fid:
             return []
         out = [fid]
-        if call.get("virt"):
+        if call.get("virt") and not self._exact_receiver(call):
             out += sorted(self.overriders().get(fid, ()))
         return out
+
+    def _exact_receiver(self, call):
+        """the receiver is a data member held by value: its dynamic type is its static type, no virtual dispatch"""
+        r = call.get("recv")
+        if not is_node(r) or call.get("arrow"):
+            return False
+        if r["k"] == "Member" and r.get("mk") == "field":
+            owner, fld = r.get("owner"), r.get("name")
+            rec = self.recs.get(owner)
+            if rec:
+                for f in rec.get("fields", []):
+                    if f["name"] == fld:
+                        t = f.get("ct", "").rstrip()
+                        return not (t.endswith("&") or t.endswith("*"))
+        return False
 
     def calls_in(self, fn):
         """list of (node, [target fids]) for every call-like node in fn, including its lambdas' bodies? no: per fn"""
